@@ -1199,6 +1199,7 @@ func (nd *KVNode) applySnapshot(np *nodeProgress, applyEvent *applyInfo) {
 	atomic.StoreInt32(&nd.applyingSnapshot, 1)
 	defer atomic.StoreInt32(&nd.applyingSnapshot, 0)
 	err := nd.PrepareSnapshot(applyEvent.snapshot)
+	verifPoint("apply.snapshot.prepared")
 	if enableSnapTransferTest {
 		err = errors.New("auto test failed in snapshot transfer")
 	}
@@ -1236,6 +1237,7 @@ func (nd *KVNode) applySnapshot(np *nodeProgress, applyEvent *applyInfo) {
 	} else {
 		err = nd.RestoreFromSnapshot(applyEvent.snapshot)
 	}
+	verifPoint("apply.snapshot.restored")
 	if err != nil {
 		nd.rn.Errorf("restore snapshot failed: %v", err.Error())
 		go func() {
@@ -1325,6 +1327,7 @@ func (nd *KVNode) applyEntry(evnt raftpb.Entry, isReplaying bool, batch IBatchOp
 	// if event.Data is nil, maybe some other event like the leader transfer
 	var retErr error
 	forceBackup, retErr = nd.sm.ApplyRaftRequest(isReplaying, batch, reqList, evnt.Term, evnt.Index, nd.stopChan)
+	verifPoint("apply.entry")
 	if reqList.Type == FromClusterSyncer {
 		nd.postprocessRemoteApply(reqList, isRemoteSnapTransfer, isRemoteSnapApply, retErr)
 	}
@@ -1410,6 +1413,7 @@ func (nd *KVNode) applyAll(np *nodeProgress, applyEvent *applyInfo) (bool, bool)
 	nd.applySnapshot(np, applyEvent)
 	start := time.Now()
 	confChanged, forceBackup := nd.applyEntries(np, applyEvent)
+	verifPoint("apply.batch.done")
 	cost := time.Since(start)
 	if cost > raftSlow {
 		nd.rn.Infof("raft apply slow cost: %v, number %v", cost, len(applyEvent.ents))
@@ -1484,6 +1488,7 @@ func (nd *KVNode) applyCommits(commitC <-chan applyInfo) {
 			case <-nd.stopChan:
 				return
 			}
+			verifPoint("apply.raftdone")
 			if ent.applyWaitDone != nil {
 				close(ent.applyWaitDone)
 			}
